@@ -96,6 +96,12 @@ func (f *Feature) UnmarshalJSON(data []byte) error {
 
 // UnmarshalBSON will unmarshal a BSON document created with bson.Marshal.
 func (f *Feature) UnmarshalBSON(data []byte) error {
+	// the driver's struct decoder can loop forever on a document whose
+	// element lengths are corrupt, so make sure it is well formed first.
+	if err := bson.Raw(data).Validate(); err != nil {
+		return err
+	}
+
 	doc := &featureDoc{}
 	err := bson.Unmarshal(data, &doc)
 	if err != nil {
